@@ -324,7 +324,7 @@ func writeRowsBatched(w interface {
 			return fmt.Errorf("WriteRows of %d rows returned %d", m, n)
 		}
 		j += m
-		if yield && r.Intn(3) == 0 {
+		if r.Intn(3) == 0 && yield { // the draw is made in both runs: same batches
 			runtime.Gosched()
 		}
 	}
